@@ -1103,12 +1103,17 @@ def rule_deque_shape(ctx):
     prog = ctx.prog
     fns = [n for n in prog.bodies if n.startswith('common::deque::Deque::') and any(
         e[0] == 'write' and e[1] == DEQUE and e[2] in ('head', 'tail', 'len') for e in ctx.eff.direct.get(n, ()))]
-    fns = [f for f in fns if not f.endswith('::new')]
+    # shared link helpers (`set_next_of(prev, next)`: neighbour or head) are no list operations: they are stepped into from the operations that call them
+    _lh = getattr(get_roles(ctx), 'link_helpers', set())
+    fns = [f for f in fns if not f.endswith('::new') and f not in _lh]
+    fns += [n for n in prog.bodies if n.startswith('common::deque::Deque::') and n not in fns and n not in _lh and prog.bodies[n].kind != 'closure' and (prog.callees(n) & _lh)]
     n = 0
     for nid in sorted(fns):
         b = prog.bodies[nid]
         # the list's own read-only predicates (is this node the head / the tail / under the cursor, however they are factored) are part of the path
         def _pure_pred(n_, bb, d):
+            if n_ in _lh and d < 3:
+                return True
             if ' as common::deque::' in n_ and bb.kind != 'closure' and d < 3 and not bb.loops() and len(bb.blocks) <= 12:
                 return True     # link accessors of the list module written as an extension trait on the node pointer
             return bool(n_.startswith('common::deque::Deque::') and d < 3 and not bb.loops() and
@@ -1228,6 +1233,9 @@ def rule_deque_links(ctx):
         role = 'push' if nid in R.push else ('move' if (nid in R.move or nid in R.move_prims or (prog.callees(nid) & (R.move | R.move_prims))) else 'remove')
         if nid in R.move_prims and nid not in R.move:
             continue        # private pointer-surgery helpers of the move role are judged inlined into it
+        _callers = {(prog.bodies[c].root or c) if prog.bodies[c].kind == 'closure' else c for c in prog.callers().get(nid, ())} - {nid}
+        if _callers and all(c.startswith('common::deque::') and c in fns for c in _callers):
+            continue        # called by other list operations only (`unlink` under `unlink_and_drop`, a shared `set_next_of`): judged inlined into them
 
         def _in_module(n_, bb, d):
             # everything the list module does to the links is part of the path; the cursor bookkeeping (writes no link) stays a call
